@@ -8,6 +8,7 @@ _cache = {}
 def prepare(ctx):
     """extract the plan from the code, check Plan.tla with TLC, generate the cases, run the driver once."""
     binary = ctx.build_driver("plan")
+    nul = 1 if ctx.pid == "C01" else 0      # text strings ending with U+0000: binary round trip only (XML 1.0 cannot carry the character)
     plan = os.path.join(ctx.work, "plan.json")
     rc, out = ctx.run_driver(binary, test_run="^TestExtract$", env={"VERIF_OUT": plan})
     if rc != 0 or not os.path.exists(plan):
@@ -28,7 +29,7 @@ def prepare(ctx):
     cpath = os.path.join(ctx.work, "plan_cases.ndjson")
     vlib.write_ndjson(cpath, cases)
     opath = os.path.join(ctx.work, "plan_results.ndjson")
-    rc, out = ctx.run_driver(binary, test_run="^TestStructCases$", env={"VERIF_CASES": cpath, "VERIF_OUT": opath})
+    rc, out = ctx.run_driver(binary, test_run="^TestStructCases$", env={"VERIF_CASES": cpath, "VERIF_OUT": opath, "VERIF_NUL": nul})
     if rc != 0 or not os.path.exists(opath):
         raise vlib.Inconclusive("plan driver failed rc=%s\n%s" % (rc, out[-3000:]))
     res = vlib.read_ndjson(opath)
@@ -36,7 +37,7 @@ def prepare(ctx):
     if not summ or summ[0]["cases"] != len(cases):
         raise vlib.Inconclusive("driver replayed %s, TLC generated %d" % (summ, len(cases)))
     mpath = os.path.join(ctx.work, "plan_messages.ndjson")
-    rc, out = ctx.run_driver(binary, test_run="^TestMessages$", env={"VERIF_OUT": mpath})
+    rc, out = ctx.run_driver(binary, test_run="^TestMessages$", env={"VERIF_OUT": mpath, "VERIF_NUL": nul})
     if rc != 0 or not os.path.exists(mpath):
         raise vlib.Inconclusive("plan message driver failed rc=%s\n%s" % (rc, out[-3000:]))
     msgs = vlib.read_ndjson(mpath)
